@@ -48,8 +48,8 @@ claimed = {
    note="Reduced: integer/size/signal encoding by NewLine's byteargs and the asm writers (bytes.Buffer based) are not yet under contract; disassembler text not covered. Trusted: vcgo translation, BigEndian stub, string theory axioms (extensionality instances), solvers.",
    ref="4/C14"),
  "C15": dict(
-   text="Proof, for every byte string, that the VM's instruction decoders (opSplit, instructionSplit, intSplit, parseSym/TwoSym/SymLen/SymSig/Sig) never panic (automatic bounds/nil obligations) and return nil error only when a complete, valid argument group was consumed (postconditions over the real code's SSA).",
-   note="Trusted: vcgo's SSA-to-SMT translation, fmt.Errorf/encoding/binary stubs, lengths < 2^31, solver unsat answers. ParseAll/ToString (disassembler loop) not yet under contract.",
+   text="Proof, for every byte string, that the VM's instruction decoders (opSplit, instructionSplit, intSplit, parseSym/TwoSym/SymLen/SymSig/Sig) never panic (automatic bounds/nil obligations) and return nil error only when a complete, valid argument group was consumed (postconditions over the real code's SSA); and that the disassembler loop ParseAll consumes exactly one complete valid instruction per iteration, refuses undefined opcodes and passes every decoder error on.",
+   note="Four genuine defects repaired (fix: e1ebf5a, b205a62 decoders; 549a922 the disassembler swallowed the argument decoders' errors - found when ParseAll was put under contract: a per-iteration `step` obligation says that every completed iteration consumed exactly one complete valid instruction, so a nil error means the whole input is a sequence of them, by induction over iterations). The handler callbacks of the disassembler are function values: assumed not to touch the bytecode. The text ToString produces is not under contract. Trusted: vcgo's SSA-to-SMT translation, fmt.Errorf/encoding/binary stubs, lengths < 2^31, solver unsat answers.",
    ref="4/C15"),
  "C10": dict(
    text="Proof for the memory and filesystem backends that the code implements the keyed-map view: the storage key is exactly type byte + (session prefix for session-scoped types) + key (+ '_' + language code for translatable types with a language from the store or the context) (ToSessionKey, ToDbKey, ToKey and the fs/mem overrides, with frames that touch only spare capacity, so a lookup cannot alter the session prefix); Put is refused while the data type is locked and then changes nothing, otherwise writes exactly the record of the translation key if a language applies, else of the default key; Get returns the translation record if present, else the default record, else an error of type ErrNotFound; SetLock/CheckPut/Safe are proved at bit level for all 256 type masks, sealing is irreversible. The file system is a ghost map path -> (exists, content) behind assumed contracts for os.Open/ReadAll/WriteFile/path.Join.",
